@@ -346,7 +346,8 @@ pub const L_UNWRAP_OK: u32 = 18;
 pub const L_WEAK_DEAD: u32 = 19;
 pub const L_DTOR_RELEASE: u32 = 20;
 pub const L_PANIC: u32 = 21;
-pub const NAMES: [&str; 22] = [
+pub const L_ALLOC_FAIL: u32 = 22;
+pub const NAMES: [&str; 23] = [
     "zero_sized_payload",
     "payload_size_not_multiple_of_8",
     "payload_larger_than_a_page",
@@ -369,6 +370,7 @@ pub const NAMES: [&str; 22] = [
     "weak_used_after_death",
     "destructor_released_a_handle_to_a_peer_dying_with_it",
     "destructor_panicked_during_a_release",
+    "injected_allocation_failure_handled_without_abort",
 ];
 
 fn pick(sel: u16, len: usize) -> Option<usize> {
@@ -1194,9 +1196,15 @@ fn run_typed<T: Payload>(c: &TypesCase) {
     let sh = shared();
     let live0 = arena::st().live;
     let mut x = X::<T>::new();
+    arena::st().fail_in = if (c.layout_seed >> 28) & 7 == 0 { 1 + (c.layout_seed >> 32) % 160 } else { 0 };
     for (i, op) in c.xops.iter().enumerate() {
         sh.op = i as u32;
         arena::st().ctx_op = i as u32;
+        if arena::st().fail_fired {
+            arena::st().fail_fired = false;
+            sh.expect_abort = 0;
+            x.lab(L_ALLOC_FAIL);
+        }
         x.apply(op);
         if cactusref::__verif::counters()[5] != 0 {
             violate(View::Mem, "the library read the link table of an allocation whose contents had been moved out (stale access)");
@@ -1205,6 +1213,12 @@ fn run_typed<T: Payload>(c: &TypesCase) {
         x.audit(consume);
         sh.labels = x.labels;
     }
+    if arena::st().fail_fired {
+        arena::st().fail_fired = false;
+        sh.expect_abort = 0;
+        x.lab(L_ALLOC_FAIL);
+    }
+    arena::st().fail_in = 0;
     // cleanup: every handle the program holds, in the generated order
     let base = c.xops.len();
     let mut k = 0usize;
